@@ -1047,7 +1047,8 @@ func famStreams(dir string, seed int64, tier string) {
 		}
 		wP.add(fmt.Sprintf("ProcCase %s %s %s %s", p.coq(), coqTokens(ts), classOf(err), coqLogs(rc)), desc, p.kind != "tokens")
 	}
-	streamsSharedToken(repC, "C14", "C13")
+	streamsSharedToken(repC, "C14")
+	streamsSharedToken(repP, "C13")
 	apiFilterStale(repP)
 	apiSinkFaultWithCont(repC)
 	streamsMarshalFaults(repP)
